@@ -409,15 +409,16 @@ class PythonRegex(regex.Regex):
 
     def _escape_in_brackets(self):
         regex_temp = []
-        in_brackets = False
+        # Shortcuts were replaced by sets: brackets can be nested
+        in_brackets = 0
         for symbol in self._python_regex:
             if (symbol == "["
                     and not self._should_escape_next_symbol(regex_temp)):
-                in_brackets = True
-            elif (symbol == "]"
+                in_brackets += 1
+            elif (symbol == "]" and in_brackets > 0
                   and not self._should_escape_next_symbol(regex_temp)):
-                in_brackets = False
-            if (in_brackets
+                in_brackets -= 1
+            if (in_brackets > 0
                     and not self._should_escape_next_symbol(regex_temp)
                     and symbol in TO_ESCAPE_IN_BRACKETS):
                 regex_temp.append("\\" + symbol)
